@@ -546,8 +546,82 @@ numbers.Number.register(C)
 numbers.Number.register(SymInt)
 
 
+class Havoc:
+    """A floating-point value about which nothing is assumed (index-level analyses: the numerical data is abstracted away).
+    Arithmetic returns HAVOC again; every comparison is an independent nondeterministic choice (a fresh boolean decided by
+    the explorer on both sides), which over-approximates every concrete outcome."""
+    __slots__ = ()
+    __array_ufunc__ = None
+    __hash__ = None
+
+    def _a(self, o=None):
+        return HAVOC
+
+    __add__ = __radd__ = __sub__ = __rsub__ = __mul__ = __rmul__ = __truediv__ = __rtruediv__ = __pow__ = __rpow__ = _a
+    __neg__ = __pos__ = __abs__ = _a
+
+    def conjugate(self):
+        return HAVOC
+
+    def sqrt(self):
+        return HAVOC
+
+    def _c(self, o=None):
+        n = cur().fresh_name('hv') if active() else 'hv'
+        return SymBool(z3.Bool(n))
+
+    __lt__ = __le__ = __gt__ = __ge__ = __eq__ = __ne__ = _c
+
+    def __bool__(self):
+        return bool(self._c())
+
+    def __float__(self):
+        unsupported('float() of a havoc value')
+
+    def __repr__(self):
+        return 'HAVOC'
+
+
+HAVOC = Havoc()
+
+
+def _is_havoc_like(v):
+    if _builtin_isinstance(v, Havoc):
+        return True
+    if type(v).__name__ != 'Tensor' or not type(v).__module__.endswith('symtorch'):
+        return False
+    a = v.a
+    return a.size == 1 and _builtin_isinstance(a.reshape(-1)[0], Havoc)
+
+
+def _sym_extreme(f, a, k):
+    """max/min replacement injected into the loaded modules: a havoc operand makes the result havoc without a case split"""
+    if len(a) == 1:
+        try:
+            lst = list(a[0])
+        except TypeError:
+            return f(*a, **k)
+        if any(_is_havoc_like(v) for v in lst):
+            return HAVOC
+        return f(lst, **k)
+    if any(_is_havoc_like(v) for v in a):
+        return HAVOC
+    return f(*a, **k)
+
+
+def sym_max(*a, **k):
+    return _sym_extreme(max, a, k)
+
+
+def sym_min(*a, **k):
+    return _sym_extreme(min, a, k)
+
+
 def sym_isinstance(obj, cls):
     """isinstance replacement injected into the loaded torchtt modules."""
+    if _builtin_isinstance(obj, Havoc):
+        targets = cls if _builtin_isinstance(cls, tuple) else (cls,)
+        return float in targets or numbers.Number in targets
     if _builtin_isinstance(obj, Z):
         targets = cls if _builtin_isinstance(cls, tuple) else (cls,)
         import numpy as _np
